@@ -1602,6 +1602,9 @@ class Interp:
                 if c ** 3 == x:
                     return c
         xs = self.toreal(x)
+        for term, root in getattr(self, "cbrt_known", ()):
+            if z3.eq(z3.simplify(xs), z3.simplify(term)):
+                return root       # harness-supplied exact cube root (the volume was given as h*h*h)
         key = ("cbrt", str(xs))
         memo = getattr(self, "_cbrt_memo", None)
         if memo is None:
